@@ -146,7 +146,11 @@ class Config:
 
         def convert_to_dict(path, obj):
             if isinstance(obj, SectionProxy):
-                result[path] = {k: substitute_config_dir(v) for k, v in obj.items()}
+                # Values are effective (already interpolated), while the dict is read back as
+                # raw option text: escape dollar signs so that they survive the round trip.
+                result[path] = {
+                    k: substitute_config_dir(v).replace("$", "$$") for k, v in obj.items()
+                }
                 return
             for key in obj.keys():
                 convert_to_dict(f"{path}.{key}" if path else key, obj[key])
